@@ -36,7 +36,13 @@ func (c *Ctx) Emit(format string, a ...interface{}) {
 	fmt.Fprintf(c.w, format, a...)
 	c.w.WriteByte('\n')
 	c.lines++
+	if flushEveryLine {
+		c.w.Flush()
+	}
 }
+
+// flushEveryLine (VERIF_FLUSH=1): the trace survives a crash of the process (a panic on a goroutine of the node under test)
+var flushEveryLine = os.Getenv("VERIF_FLUSH") != ""
 func (c *Ctx) Hit(k string)           { c.Stats[k]++ }
 func (c *Ctx) HitN(k string, n int)   { c.Stats[k] += n }
 func (c *Ctx) Fail(format string, a ...interface{}) {
